@@ -9,17 +9,18 @@ import runs
 import vcheck
 
 
-def driver(name, san=False):
-    return os.path.join(runs.bdir(), name + ("_san" if san else ""))
+def driver(name, san=False, flavour=None):
+    return os.path.join(runs.bdir(flavour), name + ("_san" if san else ""))
 
 
-def produce(name, argsets, san=False, timeout=900):
-    """Run the driver once per argument list (in parallel); -> list of (path, nlines, stderr_tail)."""
-    exe = driver(name, san)
+def produce(name, argsets, san=False, timeout=900, flavour=None):
+    """Run the driver once per argument list (in parallel); -> list of (path, nlines, stderr_tail).
+    flavour: the build flavour of /repo's sources the driver is linked against ("uchar": -funsigned-char)"""
+    exe = driver(name, san, flavour)
 
     def one(i_args):
         i, args = i_args
-        path = os.path.join(vcheck.scratch(), "%s-%d-%d.ndjson" % (name, os.getpid(), i))
+        path = os.path.join(vcheck.scratch(), "%s%s-%d-%d.ndjson" % (name, "-" + flavour if flavour else "", os.getpid(), i))
         with open(path, "wb") as f:
             env = dict(os.environ, ASAN_OPTIONS="detect_leaks=0:exitcode=77", UBSAN_OPTIONS="halt_on_error=1:exitcode=78:print_stacktrace=1")
             p = subprocess.run([exe] + [str(a) for a in args], stdout=f, stderr=subprocess.PIPE, timeout=int(timeout * vcheck.TSCALE), env=env)
